@@ -47,6 +47,17 @@ def main():
     out = os.path.join(ROOT, "seeded", name)
     os.makedirs(out, exist_ok=True)
     meta = {"property": pid, "worktree": wt, "confirmed_at": time.strftime("%Y-%m-%d %H:%M:%S"), "steps": {}}
+    prev = {}
+    if os.path.exists(os.path.join(out, "meta.json")):
+        try:
+            prev = json.load(open(os.path.join(out, "meta.json")))
+        except Exception:  # noqa
+            prev = {}
+    if skip_ctest and prev.get("steps", {}).get("ctest"):
+        meta["steps"]["ctest"] = prev["steps"]["ctest"]
+        meta["steps"]["ctest"]["note"] = "carried over from the confirmation run of " + prev.get("confirmed_at", "?")
+    if prev.get("check_history") or prev.get("checks"):
+        meta["check_history"] = prev.get("check_history", []) + [{"at": prev.get("confirmed_at"), "checks": {k: v.get("verdict") for k, v in prev.get("checks", {}).items()}}]
     seed = os.path.join(wt, "seed")
     # 1. patch identity
     diff = sh(f"git -C {wt} diff -- include").stdout
